@@ -239,15 +239,18 @@ class Ctx:
             self.samples.append(s)
 
     # -- lean
-    def lean_stage(self, extra_targets=()):
-        """translator + build + audit + forbidden-token grep.  Broken obligations are recorded, not fatal."""
+    def lean_stage(self, extra_targets=(), extra_props=()):
+        """translator + build + audit + forbidden-token grep.  Broken obligations are recorded, not fatal.
+        extra_props: further files of Props/ whose theorems belong to this property's obligations."""
         tables(force=True)
         pid = self.pid
-        targets = [f"YncaVerif.Props.{pid}", "ynca_model", *extra_targets]
+        targets = [f"YncaVerif.Props.{pid}", "ynca_model", *extra_targets, *[f"YncaVerif.Props.{x}" for x in extra_props]]
         t = time.time()
         ok, out = lake_build(targets)
         self.info["lake_build_s"] = round(time.time() - t, 1)
         names = theorems_of(pid)
+        for x in extra_props:
+            names += theorems_of(x)
         self.obligations = len(names)
         if not ok:
             # which theorem(s) broke?
@@ -261,6 +264,9 @@ class Ctx:
             lake_build(["ynca_model"])
         else:
             ax, raw = audit(pid)
+            for x in extra_props:
+                ax2, _ = audit(x)
+                ax.update(ax2)
             self.axioms = ax
             good = 0
             for n, a in ax.items():
